@@ -28,7 +28,7 @@ for p in props:
         'level_claimed': {'category': 'exploration',
                           'text': getattr(d, 'LEVEL_TEXT', 'Held on the executions observed: ' + d.RULE[:300]),
                           'design_ref': 'DESIGN.md section 2, ' + pid},
-        'level_note': getattr(d, 'LEVEL_NOTE', 'Trusted base: the oracle / reference model in eaomon (written from the documentation), scipy-HiGHS as independent solver, pandas/numpy. ' + '; '.join(getattr(d, 'ASSUMPTIONS', []))[:600]),
+        'level_note': getattr(d, 'LEVEL_NOTE', 'Trusted base: the oracle / reference model in eaomon (written from the documentation), scipy-HiGHS as independent solver (pyscipopt-SCIP as second opinion on mixed-integer infeasibility verdicts), pandas/numpy. ' + '; '.join(getattr(d, 'ASSUMPTIONS', []))[:600]),
         'technique': getattr(d, 'TECHNIQUE', 'runtime monitoring: oracle over recorded API-boundary events of the real code under generated workloads'),
     })
 m = {
